@@ -88,6 +88,12 @@ TUEst == IsEvent("UEst") /\ LET e == Log[l]  o == un[e.u] IN
           /\ SkUnchanged
           \* the estimate getters run check_rebuild_kxq_cur_min on the gadget
           /\ ug' = UgSet([ug EXCEPT ![e.u] = IF GSup(@) THEN G!GCheckRebuild(@) ELSE @]) /\ GScalars(e, ug'[e.u])
+\* a refused bound query on the union (NumStdDev outside 1..3); the gadget's deferred rebuild runs before the argument check
+TUBadArg == IsEvent("BadArg") /\ LET e == Log[l] IN
+          /\ Has(e, "u")
+          /\ Chk("C06:invalid-num-std-dev-refused", e.threw)
+          /\ U!Observe(e.u) /\ SkUnchanged
+          /\ ug' = UgSet([ug EXCEPT ![e.u] = IF GSup(@) THEN G!GCheckRebuild(@) ELSE @])
 \* get_result(type): ResultDef
 ResultChecks(e) == LET o == un[e.u]  r == e.r  lg == U!LgStar(o) IN
           /\ U!Observe(e.u) /\ UScalars(e, o)
@@ -128,14 +134,17 @@ TUCompare == IsEvent("UCompare") /\ LET e == Log[l] IN
                LET a == e.objs[n]  b == e.objs[k]  oa == un[a.u]  ob == un[b.u] IN
                (U!LgStar(oa) = U!LgStar(ob) /\ oa.top = ob.top /\ oa.fed = ob.fed /\ oa.sp = ob.sp /\ oa.big = ob.big /\ oa.empty = ob.empty
                   /\ (oa.hllLg = {}) = (ob.hllLg = {}) /\ Class(a.mode) = Class(b.mode))
-                 => /\ Chk("order-independent-estimate", a.cest = b.cest)
-                    /\ Chk("order-independent-result-estimate", a.rcest = b.rcest)
+                 \* e.dq[n][k] = <<round(10^12 |a - b| / max(a, b)) of the unions' composite estimates, the same of the results'>>: equal
+                 \* up to 10^-12 (DESIGN C03: a register difference moves the estimate by far more; the deferred rebuild of kxq
+                 \* sums in another order than the incremental update, which can differ in the last bit for register values >= 32)
+                 => /\ Chk("order-independent-estimate", a.cest = b.cest \/ e.dq[n][k][1] <= 1)
+                    /\ Chk("order-independent-result-estimate", a.rcest = b.rcest \/ e.dq[n][k][2] <= 1)
           \* get_composite_estimate of every union ran check_rebuild
           /\ ug' = UgSet([u \in DOMAIN ug |-> IF GSup(ug[u]) /\ \E n \in DOMAIN e.objs : e.objs[n].u = u THEN G!GCheckRebuild(ug[u]) ELSE ug[u]])
           /\ UNCHANGED <<obj, hist, blob, sh, un>>
 
 TUInit == TInit /\ un = <<>> /\ ug = <<>>
 TUNext == TUBegin \/ (SkNext /\ UNCHANGED <<un, ug>>)
-          \/ TUNew \/ TUUpdate \/ TUItem \/ TUItemIgnored \/ TUReset \/ TUObs \/ TUEst \/ TUResult \/ TUResultAs \/ TUCompare
+          \/ TUNew \/ TUUpdate \/ TUItem \/ TUItemIgnored \/ TUReset \/ TUObs \/ TUEst \/ TUBadArg \/ TUResult \/ TUResultAs \/ TUCompare
 TUSpec == TUInit /\ [][TUNext]_tuvars
 ====
